@@ -5,21 +5,42 @@ package debian
 // Machine-checked contracts for this package (checked by /verif/govc; see /verif/DESIGN.md).
 // This file contains comments only; it is compiled only under the build tag "verif".
 
+// ---- dpkg order (C10): '~' before the end of the string before letters before every other character
 //@ func getDebianCharWeight
+//@   ensures tilde: r == '~' ==> result == -1                                                         [C10]
+//@   ensures end: r == 0 ==> result == 0                                                              [C10]
+//@   ensures letter: r != '~' && r != 0 && unicode.IsLetter(r) ==> result == r                        [C10]
+//@   ensures other: r != '~' && r != 0 && !unicode.IsLetter(r) ==> result == r + 256                  [C10]
+//@   ensures ascii-order: 0 < r && r < 128 && r != '~' ==> result > 0 && (unicode.IsLetter(r) ==> result < 128) && (!unicode.IsLetter(r) ==> result > 256)   [C10]
 
+// weight of the i-th character of a non-digit run, the end of the run counting as the null character
+//@ spec dw(s string, i int) int = i < len(s) ? getDebianCharWeight(s[i]) : 0
 //@ func compareDebianNonDigits
 //@   comparator a ~ b                                     [C01]
+//@   ensures first-difference: forall k int :: 0 <= k && (k < len(a) || k < len(b)) && (forall j int :: 0 <= j && j < k ==> dw(a, j) == dw(b, j)) && dw(a, k) != dw(b, k) ==> result == (dw(a, k) < dw(b, k) ? -1 : 1)   [C10]
+//@   ensures all-equal: (forall j int :: 0 <= j && (j < len(a) || j < len(b)) ==> dw(a, j) == dw(b, j)) ==> result == 0   [C10]
 
+// digit runs compare as integers of any length: without their leading zeros the longer run is larger, runs of equal
+// length compare as text; an empty run has the same stripped text as a run of zeros
 //@ func compareDebianDigits
 //@   comparator a ~ b                                     [C01]
+//@   ensures shorter: len(strings.TrimLeft(a, "0")) < len(strings.TrimLeft(b, "0")) ==> result == -1   [C10]
+//@   ensures longer: len(strings.TrimLeft(a, "0")) > len(strings.TrimLeft(b, "0")) ==> result == 1     [C10]
+//@   ensures same-length: len(strings.TrimLeft(a, "0")) == len(strings.TrimLeft(b, "0")) ==> result == strings.Compare(strings.TrimLeft(a, "0"), strings.TrimLeft(b, "0"))   [C10]
+//@   ensures empty-is-zero: a == "" && b == "0" ==> result == 0   [C10]
 
 // Two-cursor scanner: outside the loop shapes govc summarises; bounded stand-in.
 //@ func compareDebianVersionString
 //@   bounded alphabet "019a~.+" maxlen 3
 //@   comparator a ~ b                                     [C01]
 
+// epoch, then upstream, then revision; an absent revision is revision 0
+//@ spec rev(v *Version) string = v.revision == "" ? "0" : v.revision
 //@ func (*Version).Compare
 //@   comparator v ~ other                                 [C01]
+//@   ensures epoch: v.epoch != other.epoch ==> result == (v.epoch < other.epoch ? -1 : 1)   [C10]
+//@   ensures upstream: v.epoch == other.epoch && compareDebianVersionString(v.upstream, other.upstream) != 0 ==> result == compareDebianVersionString(v.upstream, other.upstream)   [C10]
+//@   ensures revision: v.epoch == other.epoch && compareDebianVersionString(v.upstream, other.upstream) == 0 ==> result == compareDebianVersionString(rev(v), rev(other))   [C10]
 
 // ---- constructors: value xor error (C06); the fact is structural (untagged) because callers rely on it
 
